@@ -16,9 +16,13 @@
 EXTENDS Naturals, FiniteSets, TLC
 CONSTANT MaxFaults
 
-Pipes   == {"plain", "semgrep", "sast", "sast2"}
+Pipes   == {"plain", "semgrep", "sast", "sast2", "multi", "late"}
+\* multi: the first codemod of the run is a pipeline of TWO transformers
+\* late:  the first codemod reads every file and changes none of them, the second one has changes (whatever the first
+\*        one kept about a file must not stand in for the file later)
 Static  == {"badutf8", "badutf8comment", "nul", "syntax", "empty"}   \* badutf8comment: the undecodable byte sits in a trailing comment only
-Dynamic == {"vanish", "raise", "malformedTree", "raiseAtNodeEarly", "raiseAtNodeMid", "raiseAtNodeLate"}   \* malformedTree: the transformer returns a tree whose code cannot be generated;   \* the j-th visited node: 2nd, 25th, the first one after a change was recorded
+Dynamic == {"vanish", "raise", "malformedTree", "raiseAtNodeEarly", "raiseAtNodeMid", "raiseAtNodeLate", "raiseInLaterTransformer"}
+\* raiseInLaterTransformer: the second transformer of a pipeline raises after the first one has changed the tree   \* malformedTree: the transformer returns a tree whose code cannot be generated;   \* the j-th visited node: 2nd, 25th, the first one after a change was recorded
 NF == 3
 NC == 2
 
@@ -31,11 +35,14 @@ FaultSets(maxFaults) ==
   {{a} : a \in OneFault} \cup
   (IF maxFaults >= 2 THEN UNION {{{a, b} : b \in {c \in OneFault : c.fj # a.fj}} : a \in OneFault} ELSE {})   \* at most one per file
 
-Placements(maxFaults) == {[pipe |-> p, faults |-> F] : p \in Pipes, F \in FaultSets(maxFaults)}
+WellPlaced(p, F) ==
+  \A x \in F : ((x.kind = "raiseInLaterTransformer") => (p = "multi" /\ x.ci = 1))
+              /\ ((p = "late") => (x.kind \in {"vanish", "raise", "badutf8", "syntax"}))
+Placements(maxFaults) == {q \in {[pipe |-> p, faults |-> F] : p \in Pipes, F \in FaultSets(maxFaults)} : WellPlaced(q.pipe, q.faults)}
 
 \* does a codemod of this pipeline select a file whose bytes are bad?  A rule-detected codemod only selects files in
 \* which its rule reported something, and the rule engine may or may not report in a file it cannot parse: don't care.
-SelectsBadFile(pipe) == pipe \in {"plain", "sast", "sast2"}
+SelectsBadFile(pipe) == pipe \in {"plain", "sast", "sast2", "multi", "late"}
 
 MustFail(p) ==
   UNION {
